@@ -40,12 +40,13 @@ pub struct Args {
 fn main() {
     let argv: Vec<String> = std::env::args().collect();
     if argv.len() == 3 && argv[1] == "c04-worker" { c04::worker(&argv[2]); return; }
-    if argv.len() < 3 && !(argv.len() == 2 && (argv[1] == "dump-stdlib" || argv[1] == "c10-witness")) {
+    if argv.len() < 3 && !(argv.len() == 2 && (argv[1] == "dump-stdlib" || argv[1] == "c10-witness" || argv[1] == "c18-witness")) {
         eprintln!("usage: harness gen <Cxx> --seed S --n N --tier quick|thorough --out DIR");
         std::process::exit(2);
     }
     let cmd = argv[1].clone();
     if cmd == "c10-witness" { out::start_watchdog(); c10::witness(); return; }
+    if cmd == "c18-witness" { out::start_watchdog(); vmrun::c18_witness(); return; }
     if cmd == "dump-stdlib" { print!("{}", modgen::dump_stdlib()); return; }
     if cmd == "c01-obs" { c01::obs_child(&argv[2], argv.get(3).map(|s| s.as_str()).unwrap_or("")); return; }
     if cmd == "c01-case" { c01::replay(&argv[2]); return; }
